@@ -460,7 +460,7 @@ def main(ck):
     cases = [json.loads(l) for l in out.splitlines() if l.startswith('{"i"')]
     matrices = [json.loads(l) for l in out.splitlines() if l.startswith('{"kind":"regex"')]
     ncorp = sum(1 for c in cases if c["kind"] == "corpus")
-    nsweep = sum(1 for c in cases if c["kind"] == "sweep")
+    nsweep = sum(1 for c in cases if c["kind"] in ("sweep", "pairs"))
     if rc != 0 or len(cases) - ncorp - nsweep != n or (n > 0 and nsweep == 0) or (not getattr(ck, "replay", None) and ncorp < len(files)) or len(matrices) != 1:
         ck.broken.append("harness c10 failed rc=%d cases=%d matrices=%d: %s" % (rc, len(cases), len(matrices), out[-800:]))
         return
@@ -694,7 +694,14 @@ def main(ck):
         if corr_ok:
             validated += 1
         for f in c["oracle"]:
-            src = sources_of_failure(cv, f, classes, cr_current) if corr_ok else {None}
+            if not evaluated:
+                # the model could not be evaluated at all (already recorded in ck.broken): an oracle failure that lies inside the
+                # input part of an open signature is not reported as a new failing input, everything else still is
+                src = sources_of_failure(cv, f, classes, True)
+                if None not in src and all(ck.match_finding(s) for s in src):
+                    continue
+            else:
+                src = sources_of_failure(cv, f, classes, cr_current) if corr_ok else {None}
             bad = [s for s in src if s is None or not ck.match_finding(s)]
             if bad or not src:
                 nviol += 1
